@@ -197,11 +197,34 @@ def _apply_model_action(w, a, model, rng):
     elif op == "addnet":
         tn = w.nets[a["n"]]
         tn |= w.nets[a["m"]]
+    elif op == "combine":
+        A, B = w.nets[a["a"]], w.nets[a["b"]]
+        w.nets[a["c"]] = (A | B) if a["virtual"] else (A & B)
     elif op == "gc":
         del w.nets[a["n"]]
         gc.collect()
     else:
         raise RuntimeError("unknown model action %r" % (a,))
+
+
+def _canon_fresh(model, real):
+    """machine generated labels (rand_uuid) correspond to the model's fresh labels x1, x2...: compare up to
+    that renaming by mapping real labels the model does not know, in order of first appearance"""
+    return None
+
+
+def _drifted(model, p):
+    """mechanical comparison of the real projection with the model state (not a verdict: only decides whether
+    the rest of the behaviour can still be replayed)"""
+    for n, j in model["nets"].items():
+        r = p["nets"].get(n)
+        if r is None or r["tmap"] != j["tmap"]:
+            return True
+    for t, j in model["tens"].items():
+        r = p["tens"].get(t)
+        if r is None or len(r["inds"]) != len(j["inds"]) or sorted(r["tags"]) != sorted(j["tags"]):
+            return True
+    return False
 
 
 def replay_behaviour(states, rng, tid):
@@ -226,8 +249,8 @@ def replay_behaviour(states, rng, tid):
         rec = {"tid": tid, "seq": k, "ev": a["op"], "args": {kk: vv for kk, vv in a.items() if kk != "op"}, "exc": exc, "model": model}
         rec.update(p)
         recs.append(rec)
-        if exc:
-            break
+        if exc or _drifted(model, p):
+            break       # (the drift itself is reported by the trace spec as NOTE:ModelDrift)
     return recs
 
 
@@ -748,6 +771,8 @@ def run(ctx):
     ctx.model_check("MC_C02", "MC_quick.cfg" if quick else "MC_thorough.cfg", name="store-histories",
                     require_actions=("NewNet", "AddTensor", "PopA", "TReindex", "TRetag", "NReindex", "Copy", "AddNetVirtual", "GC"),
                     timeout=1500)
+    ctx.model_check("MC_C02", "MC_combine.cfg" if quick else "MC_combine_thorough.cfg", name="combine-histories",
+                    require_actions=("Combine", "AddNetVirtual", "Copy"), timeout=2400)
     for cfg, what in (("MC_prefix.cfg", "pre-fix _unlink_inds"), ("MC_repeats.cfg", "labels carried twice by one tensor (KF-C02-1)")):
         r = T.run_tlc("MC_C02", cfg, ctx.spec_dir, workers=4, allow_violation=True, scratch=ctx.scratch, timeout=300)
         if r.violated != "MapsExact":
